@@ -15,7 +15,7 @@ PROP = "C17"
 LEAN_MODULES = ["Props.C17"]
 RULE = (
     "FULL ENUMERATION: files of 1-8 elements x every fault position k (and no fault) x {read, write} x file "
-    "families {register, block, section} x {path, caller buffer (in-memory and a real file object opened by the caller) / content} x storage {text, binary} x exception "
+    "families {register, block, section} x {fresh path, path that already holds a longer earlier output, caller buffer (in-memory and a real file object opened by the caller) / content} x storage {text, binary} x exception "
     "types {ValueError, KeyError, custom Exception subclasses incl. one derived from StopIteration and one with a "
     "non-trivial constructor}. The k-th element's read/write raises a specific "
     "exception instance. Observed with a harness-side wrapper around builtins.open (and around the StringIO/BytesIO "
@@ -157,6 +157,11 @@ def run_impl(case):
                 data.append(E(data=i))
             f = F(data=data)
             dest_path = os.path.join(d, "out.dat")
+            if where == "existingpath":
+                # the destination already holds a longer, earlier output (read - edit - save again)
+                full = (b"" if binary else "").join(chunk_of(i, binary) for i in range(n + 3))
+                with open(dest_path, "wb") as fh:
+                    fh.write((full if binary else full.encode("utf-8")) + b"# stale tail of an earlier save\n")
             if where == "callerfile":
                 # a real file object opened (and owned) by the caller, before the recorder starts
                 buf = open(os.path.join(d, "caller.dat"), "wb" if binary else "w", **({} if binary else {"encoding": "utf-8", "newline": ""}))
@@ -164,10 +169,10 @@ def run_impl(case):
                 buf = io.BytesIO() if binary else io.StringIO()
             with Recorder() as rec:
                 try:
-                    f.write(dest_path if where == "path" else buf)
+                    f.write(dest_path if where in ("path", "existingpath") else buf)
                 except BaseException as e:  # noqa
                     raised = e
-            if where == "path":
+            if where in ("path", "existingpath"):
                 with open(dest_path, "rb") as fh:
                     disk = fh.read()
                 want = expected_prefix if binary else expected_prefix.encode("utf-8")
@@ -242,7 +247,7 @@ def judge(case, obs, resp):
         if not obs["output_is_prefix"]:
             bad.append("output is not exactly the elements before the failing one")
         return {"status": "oracle", "why": f"{case['family']} {case['direction']} {'binary' if case['binary'] else 'text'} {case['where']} n={case['n']} k={case['k']}: " + "; ".join(bad)}
-    if case["where"] == "path" and obs.get("handles_seen", 0) == 0:
+    if case["where"] in ("path", "existingpath") and obs.get("handles_seen", 0) == 0:
         return {"status": "error", "why": "no handle was recorded for a path source/destination (harness wrapper not effective)"}
     return {"status": "ok", "why": ""}
 
@@ -276,7 +281,7 @@ def all_cases():
     for fam in ("register", "block", "section"):
         for binary in (False, True):
             for direction in ("write", "read"):
-                for where in ("path", "buffer") + (("callerfile",) if direction == "write" else ()):
+                for where in ("path", "buffer") + (("callerfile", "existingpath") if direction == "write" else ()):
                     for n in range(1, 9):
                         for k in [None] + list(range(n)):
                             for exc in EXC:
